@@ -1772,6 +1772,97 @@ impl TInputProtocol for TCompactInputProtocol<&mut Bytes> {
     fn buf(&mut self) -> &mut Self::Buf {
         self.trans
     }
+
+    /// Skip a field with type `field_type` recursively up to `depth` levels.
+    ///
+    /// The default implementation assumes the fixed-width layout of the binary
+    /// protocol. Compact integers are varints and a bool field lives in its field
+    /// header, so the value is walked with the typed readers instead.
+    fn skip_till_depth(&mut self, field_type: TType, depth: i8) -> Result<usize, ThriftException> {
+        if depth == 0 {
+            return Err(new_protocol_exception(
+                ProtocolExceptionKind::DepthLimit,
+                format!("cannot parse past {:?}", field_type),
+            ));
+        }
+        let before = self.trans.len();
+
+        match field_type {
+            TType::Bool => {
+                self.read_bool()?;
+            }
+            TType::I8 => {
+                self.read_i8()?;
+            }
+            TType::I16 => {
+                self.read_i16()?;
+            }
+            TType::I32 => {
+                self.read_i32()?;
+            }
+            TType::I64 => {
+                self.read_i64()?;
+            }
+            TType::Double => {
+                self.read_double()?;
+            }
+            TType::Binary => {
+                let size = self.read_varint::<u32>()? as usize;
+                if size > self.trans.len() {
+                    return Err(new_protocol_exception(
+                        ProtocolExceptionKind::InvalidData,
+                        "binary length exceeds remaining bytes",
+                    ));
+                }
+                bytes::Buf::advance(self.trans, size);
+            }
+            TType::Uuid => {
+                self.read_uuid()?;
+            }
+            TType::Struct => {
+                self.read_struct_begin()?;
+                loop {
+                    let field_ident = self.read_field_begin()?;
+                    if field_ident.field_type == TType::Stop {
+                        break;
+                    }
+                    self.skip_till_depth(field_ident.field_type, depth - 1)?;
+                    self.read_field_end()?;
+                }
+                self.read_struct_end()?;
+            }
+            TType::List => {
+                let list_ident = self.read_list_begin()?;
+                for _ in 0..list_ident.size {
+                    self.skip_till_depth(list_ident.element_type, depth - 1)?;
+                }
+                self.read_list_end()?;
+            }
+            TType::Set => {
+                let set_ident = self.read_set_begin()?;
+                for _ in 0..set_ident.size {
+                    self.skip_till_depth(set_ident.element_type, depth - 1)?;
+                }
+                self.read_set_end()?;
+            }
+            TType::Map => {
+                let map_ident = self.read_map_begin()?;
+                for _ in 0..map_ident.size {
+                    self.skip_till_depth(map_ident.key_type, depth - 1)?;
+                    self.skip_till_depth(map_ident.value_type, depth - 1)?;
+                }
+                self.read_map_end()?;
+            }
+            u => {
+                return Err(new_protocol_exception(
+                    ProtocolExceptionKind::DepthLimit,
+                    format!("cannot skip field type {:?}", &u),
+                ));
+            }
+        };
+
+        Ok(before - self.trans.len())
+    }
 }
 
 #[cfg(test)]
